@@ -176,7 +176,7 @@ func newSymTab() *SymTab { return &SymTab{decls: map[string]string{}} }
 
 func (t *SymTab) fresh(base string, s Sort) Term {
 	t.n++
-	base = sanitize(base)
+	base = symBase(sanitize(base))
 	name := fmt.Sprintf("%s!%d", base, t.n)
 	t.decls[name] = fmt.Sprintf("(declare-const %s %s)", name, s)
 	t.order = append(t.order, name)
@@ -184,7 +184,7 @@ func (t *SymTab) fresh(base string, s Sort) Term {
 }
 
 func (t *SymTab) named(name string, s Sort) Term {
-	name = sanitize(name)
+	name = symBase(sanitize(name))
 	if _, ok := t.decls[name]; !ok {
 		t.decls[name] = fmt.Sprintf("(declare-const %s %s)", name, s)
 		t.order = append(t.order, name)
@@ -202,6 +202,14 @@ func (t *SymTab) declareFun(name string, args []Sort, ret Sort) {
 	}
 	t.decls[name] = fmt.Sprintf("(declare-fun %s (%s) %s)", name, strings.Join(as, " "), ret)
 	t.order = append(t.order, name)
+}
+
+// symBase: SMT-LIB reserves symbols that start with '@' or '.'
+func symBase(s string) string {
+	if strings.HasPrefix(s, "@") || strings.HasPrefix(s, ".") {
+		return "g" + s
+	}
+	return s
 }
 
 func sanitize(s string) string {
